@@ -15,14 +15,14 @@ def units(tier, seed):
         t = _mk.QUICK_TABLES
     else:
         nb = [(n, m) for n in range(1, 8) for m in range(1, 8)] + [(8, 6)]
-        g = [(n, m) for n in (1, 2, 3, 4) for m in range(1, 7)] + [(5, 2)]
+        g = [(n, m) for n in (1, 2, 3) for m in range(1, 7)] + [(4, m) for m in range(1, 5)] + [(5, 2)]
         t = _mk.THOROUGH_TABLES
     us = gen.kernel_units(set(nb) | set(g))
     for n, m in nb:
         us.append({'name': f'neighbors {n}x{m}', 'fn': 'unit_neighbors', 'args': {'n': n, 'm': m}})
     for n, m in g:
         us.append({'name': f'lindig links {n}x{m}', 'fn': 'unit_lindig', 'args': {'n': n, 'm': m},
-                   'split': 7 if n * m >= 9 else 0})
+                   'split': (10 if n * m >= 16 else 7) if n * m >= 9 else 0})
     us += _mk.table_units(t)
     us += _mk.inductive_units(tier) + _mk.skeleton_kernel_units(tier, seed) + _mk.skeleton_units(tier, seed)
     return _mk.order(us)
